@@ -518,8 +518,8 @@ func (ex *Exec) pinVarPart(d *smt.LinForm, flip bool, k *big.Int) {
 		fmt.Printf("    subst(pinned) %v := %v\n", atom, rep)
 	}
 	if checkArith {
-		if ex.check(tb.Not(tb.Eq(atom, rep))) != smt.Unsat {
-			ex.fail("arith self-check: pinned substitution %v := %v is not implied by the path condition", atom, rep)
+		if ex.check(tb.Not(tb.Eq(atom, rep))) == smt.Sat {
+			ex.fail("arith self-check: pinned substitution %v := %v is REFUTED by the solver", atom, rep)
 		}
 	}
 }
@@ -624,8 +624,8 @@ func (ex *Exec) learnSubst(a, b *smt.Term) {
 		fmt.Printf("    subst %v := %v\n", atom, rep)
 	}
 	if checkArith {
-		if ex.check(ex.tb().Not(ex.tb().Eq(atom, rep))) != smt.Unsat {
-			ex.fail("arith self-check: substitution %v := %v is not implied by the path condition", atom, rep)
+		if ex.check(ex.tb().Not(ex.tb().Eq(atom, rep))) == smt.Sat {
+			ex.fail("arith self-check: substitution %v := %v is REFUTED by the solver", atom, rep)
 		}
 	}
 }
@@ -755,8 +755,11 @@ func (ex *Exec) quick(t *smt.Term) (val, known bool) {
 		if val {
 			q = ex.tb().Not(t)
 		}
-		if ex.check(q) != smt.Unsat {
-			ex.fail("arith self-check: interval decision %v for %v is not implied by the path condition", val, t)
+		switch ex.check(q) {
+		case smt.Sat:
+			ex.fail("arith self-check: interval decision %v for %v is REFUTED by the solver", val, t)
+		case smt.Unknown:
+			ex.eng.rep.Notes = append(ex.eng.rep.Notes, "arith self-check: solver could not confirm a decision (timeout)")
 		}
 	}
 	if known {
